@@ -19,6 +19,9 @@ def validate_encoded(string):
       "and orientations")
 
 def validate_decoded(iterable):
+  if not isinstance(iterable, list) or not iterable:
+    raise gfapy.TypeError(
+      "{} is not a list of at least one element".format(repr(iterable)))
   for elem in iterable:
     if not isinstance(elem, gfapy.OrientedLine):
       raise gfapy.TypeError(
